@@ -86,3 +86,15 @@ Proof.
     with (fun n s => n + spend_len s).
   rewrite (Hshift spends 5). lia.
 Qed.
+
+(* non-vacuity: a one-spend bundle with puzzle (q . nil), solution nil and amount 2^63 satisfies the hypothesis *)
+Lemma length_nonvacuous :
+  let s := {| cs_parent := repeat_byte 32 x07; cs_ph := []; cs_amount := 2 ^ 63;
+              cs_puzzle := [xff; x01; x80]; cs_solution := [x80] |} in
+  Forall plain_spend [s] /\ option_map nlen (solution_generator [s]) = Some 58.
+Proof.
+  split.
+  - constructor; [|constructor]. split; [exists (Pair (Atom [x01]) nil); reflexivity|].
+    split; [exists nil; reflexivity|]. split; [reflexivity|]. cbn. lia.
+  - vm_compute. reflexivity.
+Qed.
